@@ -167,3 +167,58 @@ pub fn rebuild_and_read(b: [u8; 3]) -> bool {
     std::hint::black_box(acc);
     ok
 }
+
+struct FmtBuf {
+    b: [u8; 96],
+    n: usize,
+}
+impl core::fmt::Write for FmtBuf {
+    fn write_str(&mut self, s: &str) -> core::fmt::Result {
+        let by = s.as_bytes();
+        if self.n + by.len() > self.b.len() {
+            return Err(core::fmt::Error);
+        }
+        self.b[self.n..self.n + by.len()].copy_from_slice(by);
+        self.n += by.len();
+        Ok(())
+    }
+}
+
+/// The host's log lines use more of the formatting machinery than `{}`: alternate form, width,
+/// fill, alignment, sign, zero padding, precision. All six integer types, values from the wire.
+/// Only "does not panic, does not allocate" is wanted (what the text looks like is C05).
+pub fn format_specs(b: [u8; 3]) -> usize {
+    use core::fmt::Write;
+    let d1 = U7::new(b[1] & 0x7f);
+    let ch = Channel::new(b[0] & 0x0f);
+    let cn = ControllerNumber::new(b[1] & 0x7f);
+    let kn = KeyNumber::new(b[2] & 0x7f);
+    let u4 = U4::new(b[2] & 0x0f);
+    let v14 = U14::new((((b[2] & 0x7f) as u16) << 7) | (b[1] & 0x7f) as u16);
+    let mut total = 0;
+    macro_rules! specs {
+        ($v:expr) => {{
+            let mut buf = FmtBuf { b: [0; 96], n: 0 };
+            let _ = write!(buf, "{}", $v);
+            let _ = write!(buf, "{:#}", $v);
+            let _ = write!(buf, "{:>6}", $v);
+            let _ = write!(buf, "{:<#8}", $v);
+            let _ = write!(buf, "{:^5}", $v);
+            let _ = write!(buf, "{:*^#7}", $v);
+            let _ = write!(buf, "{:03}", $v);
+            let _ = write!(buf, "{:+}", $v);
+            let _ = write!(buf, "{:.1}", $v);
+            let _ = write!(buf, "{:>#1$}", $v, (b[1] % 9) as usize);
+            let _ = write!(buf, "{:?}", $v);
+            let _ = write!(buf, "{:#?}", $v);
+            total += buf.n;
+        }};
+    }
+    specs!(d1);
+    specs!(ch);
+    specs!(cn);
+    specs!(kn);
+    specs!(u4);
+    specs!(v14);
+    total
+}
